@@ -364,6 +364,6 @@ def oracle_C16(c):
             if '**' in ins_text and '**' not in lit: return 'Markdown markers appear in the inserted text %r' % ins_text
             for m in re.finditer(r"\*\*(?=[^\s*])(.*?[^\s*])?\*\*", new):
                 inner = literal(m.group(0)[2:-2])
-                ok = any(inner in ''.join(k[1] for k in x[3] if k[0] == 't') and any(tv[0] == 1 and tv[1] == 1 for tv in (x[2] or [])) for n in sess for x in n[3] if x[0] == 'run')
+                ok = any(inner in ''.join(k[1] for k in x[3] if k[0] == 't') and any(tv[0] == 1 and tv[1] != 0 for tv in (x[2] or [])) for n in sess for x in n[3] if x[0] == 'run')
                 if inner and not ok and inner in ins_text: return 'the bold span %r was not rendered as a bold run' % inner
     return None
